@@ -135,7 +135,7 @@ func (u *Unit) stubFunc(st *State, instr ssa.Instruction, full string, args []Va
 		u.checkBlocking(st, instr, "WaitGroup.Wait")
 		u.event(st, "WaitGroup.Wait", args)
 		key := u.wgKey(st, args[0])
-		st.cnt["waited:"+key] = IntLit(1)
+		st.cnt["flag!waited:"+key] = True
 		return one(st, nil), true
 	case "sync/atomic.CompareAndSwapUint32":
 		u.note("stub atomic.CompareAndSwapUint32: atomic compare-and-swap (M5)")
@@ -148,6 +148,17 @@ func (u *Unit) stubFunc(st *State, instr ssa.Instruction, full string, args []Va
 		succ := Eq(cur, old)
 		u.store(st, p, Ite(succ, nw, cur))
 		u.event(st, "atomic.CAS", args)
+		// conditional event: successful claims
+		for _, ev := range u.eng.spec.Events {
+			if ev.Pattern == "atomic.CAS.ok" {
+				cn := "cnt!" + ev.Name
+				c0, ok := st.cnt[cn]
+				if !ok {
+					c0 = IntLit(0)
+				}
+				st.cnt[cn] = Add(c0, Ite(succ, IntLit(1), IntLit(0)))
+			}
+		}
 		return one(st, succ), true
 	case "context.Background":
 		u.decls.Add("ctxBackground", "(declare-const ctxBackground Iface)\n(assert (not (= (ity ctxBackground) 0)))")
@@ -392,10 +403,11 @@ func (u *Unit) lockOp(st *State, instr ssa.Instruction, v Value, mode int, acqui
 		u.event(st, "lock:"+name, []Value{base})
 		return
 	}
-	// release
+	// release: the most recent acquisition of a lock of this name and mode;
+	// that it is the same lock instance is an obligation (bases are equal)
 	idx := -1
 	for i := len(st.locks) - 1; i >= 0; i-- {
-		if st.locks[i].key == key && st.locks[i].mode == mode {
+		if st.locks[i].name == name && st.locks[i].mode == mode {
 			idx = i
 			break
 		}
@@ -403,9 +415,14 @@ func (u *Unit) lockOp(st *State, instr ssa.Instruction, v Value, mode int, acqui
 	goal := True
 	if idx < 0 {
 		goal = False
+	} else {
+		goal = Eq(st.locks[idx].base, base)
 	}
 	u.addOblig(st, "lock.held."+name, "", u.propsFor("C03"), goal, instr, "unlock of a lock this activation holds in the same mode")
 	if idx >= 0 {
+		// the critical-section contract first (proved, then available as a
+		// fact), then the lock invariant
+		u.checkSectionAsserts(st, instr, name)
 		if mode == 2 {
 			for _, li := range u.eng.spec.LockInvs {
 				if li.Struct+"."+li.Mu == name {
@@ -416,7 +433,6 @@ func (u *Unit) lockOp(st *State, instr ssa.Instruction, v Value, mode int, acqui
 				}
 			}
 		}
-		u.checkSectionAsserts(st, instr, name)
 		st.locks = append(st.locks[:idx], st.locks[idx+1:]...)
 	}
 	u.event(st, "unlock:"+name, []Value{base})
@@ -435,7 +451,9 @@ func (u *Unit) checkSectionAsserts(st *State, instr ssa.Instruction, name string
 		}
 		env := u.newEnv(st)
 		env.acq = st.acq
-		u.addOblig(st, "cs."+labelOr(c, "assert"), c.Text, c.Props, u.evalBool(env, c.Expr), instr, "critical-section contract at release of "+name+": "+c.Text)
+		g := u.evalBool(env, c.Expr)
+		u.addOblig(st, "cs."+labelOr(c, "assert"), c.Text, c.Props, g, instr, "critical-section contract at release of "+name+": "+c.Text)
+		st.assume(g)
 	}
 }
 
@@ -468,14 +486,22 @@ func (u *Unit) propsFor(ps ...string) []string {
 }
 
 // checkUnlocked: a re-entrant callback must be invoked with no lock held.
+// Two obligations: no lock of level >= 1 (registry, store, registry of
+// upcasters), and no level-0 lock (a Sequential handler's own mutex).
 func (u *Unit) checkUnlocked(st *State, instr ssa.Instruction, site, name string) {
-	goal := True
-	why := ""
+	g1, g0 := True, True
+	w1, w0 := "", ""
 	for _, h := range st.locks {
-		goal = False
-		why += " " + h.name
+		if h.level >= 1 {
+			g1 = False
+			w1 += " " + h.name
+		} else {
+			g0 = False
+			w0 += " " + h.name
+		}
 	}
-	u.addOblig(st, site+".unlocked", "", u.propsFor("C03"), goal, instr, "re-entrant callback "+name+" is invoked with no lock held (held:"+why+")")
+	u.addOblig(st, site+".unlocked", "", u.propsFor("C03"), g1, instr, "re-entrant callback "+name+" is invoked with no level>=1 lock held (held:"+w1+")")
+	u.addOblig(st, site+".unlocked.l0", "", []string{"C03"}, g0, instr, "re-entrant callback "+name+" is invoked with no level-0 lock held (held:"+w0+")")
 }
 
 func (u *Unit) checkBlocking(st *State, instr ssa.Instruction, what string) {
@@ -544,7 +570,7 @@ func (u *Unit) constructing(st *State, base T) bool {
 
 func (u *Unit) onFieldWrite(st *State, p *Ptr, fq string) {
 	if u.eng.spec.Immutable[fq] && !u.constructing(st, p.base) {
-		if !u.eng.initWriters[relName(u.fn)] {
+		if !u.eng.spec.InitWriters[relName(u.fn)] {
 			u.addOblig(st, "immutable."+fq, "", nil, False, nil, "write to immutable field "+fq+" of a published object")
 		}
 	}
@@ -556,17 +582,39 @@ func (u *Unit) checkMapWrite(st *State, m T, in ssa.Instruction) {
 	}
 }
 
-func (u *Unit) checkDerivedUse(st *State, s T, in ssa.Instruction, write bool) {
-	for k, tag := range u.eng.prov {
-		if s.S == k || mentions(s.S, k) {
-			kind := "read"
-			if write {
-				kind = "write"
+// sliceRoot returns the term whose backing array a slice term uses:
+// for (mk_slice (sarr X) ...) it is X (recursively), otherwise the term itself.
+func sliceRoot(s string) string {
+	const p = "(mk_slice (sarr "
+	for strings.HasPrefix(s, p) {
+		depth, i := 0, len(p)
+		for ; i < len(s); i++ {
+			if s[i] == '(' {
+				depth++
+			} else if s[i] == ')' {
+				if depth == 0 {
+					break
+				}
+				depth--
+			} else if s[i] == ' ' && depth == 0 {
+				break
 			}
-			u.addOblig(st, "guard.derived."+kind+"."+tag.lock, "", u.propsFor("C03"), u.heldGoal(st, tag.lock, tag.base, write), in, "value derived from data guarded by "+tag.lock+" used ("+kind+") with the lock held")
-			return
 		}
+		s = s[len(p):i]
 	}
+	return s
+}
+
+func (u *Unit) checkDerivedUse(st *State, s T, in ssa.Instruction, write bool) {
+	tag, ok := u.eng.prov[sliceRoot(s.S)]
+	if !ok {
+		return
+	}
+	kind := "read"
+	if write {
+		kind = "write"
+	}
+	u.addOblig(st, "guard.derived."+kind+"."+tag.lock, "", u.propsFor("C03"), u.heldGoal(st, tag.lock, tag.base, write), in, "value derived from data guarded by "+tag.lock+" used ("+kind+") with the lock held")
 }
 
 func (u *Unit) wgKey(st *State, v Value) string {
